@@ -178,10 +178,19 @@ class Ctx:
     def record_violation(self, stage, v):
         case = v.case
         mod = importlib.import_module("props." + self.prop.lower())
-        reducer = getattr(mod, "reduce_case", None)
-        if reducer is not None:
+        keys = getattr(mod, "REDUCE_KEYS", None)
+        if keys and hasattr(mod, "replay"):
+            # harness-side minimisation (ddmin over residues) with a fixed budget of oracle executions
             try:
-                case = reducer(case, v.violations) or case
+                from vlib import reduce as _reduce
+                clause = v.violations[0].get("clause")
+
+                def fails(c):
+                    for x in mod.replay(c):
+                        if x.get("clause") == clause and not self._findings.match(self.prop, c, x):
+                            return True
+                    return False
+                case = _reduce.reduce_case(case, keys, fails)
             except Exception:
                 self.notes.setdefault("reduce_errors", []).append(traceback.format_exc()[-400:])
         rec = {"property": self.prop, "stage": stage, "case": case, "violations": v.violations[:5],
